@@ -29,6 +29,9 @@ pub enum Case {
         errors: bool,
         genome_a: u32,
         genome_b: u32,
+        /// how the two collections are built from their values, see `build_results`
+        #[serde(default)]
+        source: u8,
     },
     Generator {
         seed: u64,
@@ -108,24 +111,53 @@ fn triple(a: i64, b: i64, c: i64) -> Result<(), Fail> {
     Ok(())
 }
 
-fn results_case<R>(name: &str, a: &[i64], b: &[i64], ga: u32, gb: u32, mk: impl Fn(i64) -> R, expect: impl Fn(i128, i128) -> Ordering) -> Result<(), Fail>
+pub const SOURCES: u8 = 12;
+
+/// The ways a caller can hand per-case values to `TestResults`: exact-size sources, and iterators
+/// whose size hint is valid but imprecise (the total must still cover every value).
+fn build_results<R>(v: &[i64], source: u8, mk: &impl Fn(i64) -> R) -> (TestResults<R>, &'static str)
 where
-    R: Ord + Copy + std::fmt::Debug + From<i64> + for<'x> std::iter::Sum<&'x R> + std::iter::Sum<R> + 'static,
+    R: From<i64> + for<'x> std::iter::Sum<&'x R> + 'static,
+{
+    use crate::iters::Hinted;
+    let n = v.len();
+    match source % SOURCES {
+        0 => (v.iter().copied().collect(), "collect() of a slice iterator"),
+        1 => (TestResults::from(v.to_vec()), "from(Vec)"),
+        2 => (TestResults::from(v.iter().copied().filter(|_| true)), "from(filter(..)): hint (0, Some(n))"),
+        3 => (v.iter().copied().flat_map(std::iter::once).collect(), "collect() of flat_map(once)"),
+        4 => {
+            let mut it = v.to_vec().into_iter();
+            (std::iter::from_fn(move || it.next()).collect(), "collect() of from_fn: hint (0, None)")
+        }
+        5 => (v[..n / 2].iter().copied().chain(v[n / 2..].iter().copied().filter(|_| true)).collect(), "collect() of exact.chain(filter): hint (n/2, Some(n))"),
+        6 => (Hinted(v.to_vec().into_iter(), 1, 0).collect(), "collect() with hint (n/2, None)"),
+        7 => (Hinted(v.to_vec().into_iter(), 0, 3).collect(), "collect() with hint (0, Some(n+4))"),
+        8 => (TestResults::from(Hinted(v.to_vec().into_iter(), 1, 5)), "from(..) with hint (n/2, Some(2n))"),
+        9 => (v.iter().copied().take_while(|_| true).collect(), "collect() of take_while"),
+        10 => (v.iter().map(|x| mk(*x)).collect(), "collect() of already typed results"),
+        _ => (v.iter().copied().skip_while(|_| false).step_by(1).collect(), "collect() of skip_while.step_by(1)"),
+    }
+}
+
+fn results_case<R>(name: &str, a: &[i64], b: &[i64], ga: u32, gb: u32, source: u8, mk: impl Fn(i64) -> R, expect: impl Fn(i128, i128) -> Ordering) -> Result<(), Fail>
+where
+    R: Ord + Copy + std::fmt::Debug + From<i64> + From<R> + for<'x> std::iter::Sum<&'x R> + std::iter::Sum<R> + 'static,
 {
     let (sa, sb): (i128, i128) = (a.iter().map(|v| i128::from(*v)).sum(), b.iter().map(|v| i128::from(*v)).sum());
-    let ta: TestResults<R> = a.iter().copied().collect();
-    let tb: TestResults<R> = TestResults::from(b.iter().copied());
-    for (t, v, s) in [(&ta, a, sa), (&tb, b, sb)] {
+    let (ta, how_a) = build_results::<R>(a, source, &mk);
+    let (tb, how_b) = build_results::<R>(b, source / SOURCES, &mk);
+    for (t, v, s, how) in [(&ta, a, sa, how_a), (&tb, b, sb, how_b)] {
         ensure!(
             t.results.len() == v.len() && t.results.iter().zip(v).all(|(r, x)| *r == mk(*x)),
             format!("{name}/results-order"),
-            "results {:?} are not the given values {v:?} in order",
+            "built by {how}: results {:?} are not the given values {v:?} in order",
             t.results
         );
         ensure!(
             t.total_result == mk(s as i64),
             format!("{name}/total-not-sum"),
-            "total {:?} of {v:?}, the sum is {s}",
+            "built by {how}: total {:?} of {v:?}, the sum is {s}",
             t.total_result
         );
         ensure!(t.len() == v.len() && t.is_empty() == v.is_empty(), format!("{name}/len"), "len()/is_empty() of {v:?}");
@@ -251,11 +283,15 @@ pub fn oracle(c: &Case, probe: &mut Probe) -> Result<(), Fail> {
             errors,
             genome_a,
             genome_b,
+            source,
         } => {
             if *errors {
-                results_case("TestResults<Error>", a, b, *genome_a, *genome_b, ErrRes, |x, y| y.cmp(&x))?;
+                results_case("TestResults<Error>", a, b, *genome_a, *genome_b, *source, ErrRes, |x, y| y.cmp(&x))?;
             } else {
-                results_case("TestResults<Score>", a, b, *genome_a, *genome_b, Score, |x, y| x.cmp(&y))?;
+                results_case("TestResults<Score>", a, b, *genome_a, *genome_b, *source, Score, |x, y| x.cmp(&y))?;
+            }
+            if source % SOURCES >= 2 || (source / SOURCES) % SOURCES >= 2 {
+                probe.label("built from an iterator with an imprecise size hint");
             }
             probe.nontrivial = a.len() >= 2 || b.len() >= 2;
             if a.is_empty() || b.is_empty() {
@@ -286,10 +322,10 @@ fn strategy() -> BoxedStrategy<Case> {
     };
     prop_oneof![
         3 => (val(), val(), val()).prop_map(|(a, b, c)| Case::Triple(a, b, c)),
-        5 => (vecs(), vecs(), any::<bool>(), 0u32..4, 0u32..4, any::<bool>()).prop_map(|(a, b, errors, genome_a, genome_b, permute)| {
+        5 => (vecs(), vecs(), any::<bool>(), 0u32..4, 0u32..4, any::<bool>(), 0u8..(SOURCES * SOURCES)).prop_map(|(a, b, errors, genome_a, genome_b, permute, source)| {
             // often compare a vector with a permutation / same-total rearrangement of itself
             let b = if permute && a.len() >= 2 { let mut p = a.clone(); p.rotate_left(1); p } else { b };
-            Case::Results { a, b, errors, genome_a, genome_b }
+            Case::Results { a, b, errors, genome_a, genome_b, source }
         }),
         2 => (any::<u64>(), 0usize..40, prop::bool::weighted(0.2)).prop_map(|(seed, len, fail)| Case::Generator { seed, len, fail }),
     ]
@@ -297,7 +333,7 @@ fn strategy() -> BoxedStrategy<Case> {
 }
 
 pub fn run(ctx: &mut Ctx) {
-    ctx.rule = "exhaustive: all 343 triples over {MIN, MIN+1, -1, 0, 1, MAX-1, MAX}; generated: value triples, pairs of result vectors (length 0..64, sums fit i64; incl. rotations with equal totals) in both polarities wrapped into individuals with different genomes, and IndividualGenerator / GenomeScorer runs with a recording scorer against the genome source run from an equal generator state. non-trivial = triples with >= 2 distinct values, vectors of length >= 2, genomes of length >= 2; distinct by JSON encoding".into();
+    ctx.rule = "exhaustive: all 343 triples over {MIN, MIN+1, -1, 0, 1, MAX-1, MAX}; generated: value triples, pairs of result vectors (length 0..64, sums fit i64; incl. rotations with equal totals) in both polarities, each built through one of 12 sources (slice / Vec / typed results, and iterators with valid but imprecise size hints: filter, flat_map, from_fn, chain, take_while, custom hints) wrapped into individuals with different genomes, and IndividualGenerator / GenomeScorer runs with a recording scorer against the genome source run from an equal generator state. non-trivial = triples with >= 2 distinct values, vectors of length >= 2, genomes of length >= 2; distinct by JSON encoding".into();
     ctx.assumptions.push("TestResults == (derived, structural) is not required to agree with its cmp; result vectors are generated so that their sum fits in i64".into());
     ctx.exhaustive = Some(true);
     ctx.extra.insert("exhaustive_scope".into(), serde_json::json!("all ordered triples over the 7 extreme values (343); the generated sub-check is not exhaustive"));
